@@ -42,6 +42,26 @@ pub fn dec_body<const N: usize>(t: u16) {
     let spec = sa::spec_leaf(t, &rec[6..]);
     check!(res[0].is_ok() == spec.ok, "C05: the per-type decoder accepts a payload iff the specification does");
     check!(sa::result_matches(&res[0], &spec), "C05,C20: decoded value / reported error equals the specified one");
+    // C03 for Result Code (the one kind whose encoder does not fit a query,
+    // P29): the round trip is split.  Under Kani the decode half is decided
+    // for every payload — the octets the specification encoder emits for a
+    // Result Code value (these octets, whenever `spec.ok`) decode to that value.
+    // The native twin runs the whole round trip through the real encoder
+    // instead, so a VIOLATION for C03 is only ever reported when encode then
+    // decode really returns a different AVP.
+    if t == 1 && spec.ok {
+        #[cfg(kani)]
+        check!(sa::result_matches(&res[0], &spec), "C03: the specified octets of a Result Code value (code, error type, message text) decode to that value (decode half of encode then decode)");
+        #[cfg(not(kani))]
+        {
+            let a = from_spec(&spec.v);
+            let mut w = VecWriter::new();
+            a.write(&mut w);
+            let back = AVP::try_read_greedy(&mut SliceReader::from(&w.data[..]));
+            check!(back.len() == 1 && matches!(&back[0], Ok(b) if *b == a && sa::same(b, &spec.v)), "C03: Result Code (code, error type, message text): encode then decode returns the same AVP");
+        }
+        witness!(true, "result_code_accepted");
+    }
 
     witness!(true, "completed");
     // the drop glue of heap AVPs whose discriminant is not constant would walk
@@ -259,27 +279,27 @@ decm!(decm_1_0, 1, 0);
 dec!(dec_1_1, 1, 1);
 //@ props=C02 tier=quick unwind=10 stubs=utf8
 decm!(decm_1_1, 1, 1);
-//@ props=C01,C05,C20 tier=quick unwind=11 stubs=utf8
+//@ props=C01,C05,C20,C03 tier=quick unwind=11 stubs=utf8
 dec!(dec_1_2, 1, 2);
 //@ props=C02 tier=quick unwind=11 stubs=utf8
 decm!(decm_1_2, 1, 2);
-//@ props=C01,C05 tier=thorough unwind=12 stubs=utf8
+//@ props=C01,C05,C03 tier=thorough unwind=12 stubs=utf8
 dec!(dec_1_3, 1, 3);
 //@ props=C02 tier=thorough unwind=12 stubs=utf8
 decm!(decm_1_3, 1, 3);
-//@ props=C01,C05,C20 tier=quick unwind=13 stubs=utf8
+//@ props=C01,C05,C20,C03 tier=quick unwind=13 stubs=utf8
 dec!(dec_1_4, 1, 4);
 //@ props=C02 tier=quick unwind=13 stubs=utf8
 decm!(decm_1_4, 1, 4);
-//@ props=C01,C05,C20 tier=thorough unwind=14 stubs=utf8
+//@ props=C01,C05,C20,C03 tier=thorough unwind=14 stubs=utf8
 dec!(dec_1_5, 1, 5);
 //@ props=C02 tier=thorough unwind=14 stubs=utf8
 decm!(decm_1_5, 1, 5);
-//@ props=C01,C05,C20 tier=quick unwind=16 stubs=utf8
+//@ props=C01,C05,C20,C03 tier=quick unwind=16 stubs=utf8
 dec!(dec_1_7, 1, 7);
 //@ props=C02 tier=quick unwind=16 stubs=utf8
 decm!(decm_1_7, 1, 7);
-//@ props=C01,C05,C20 tier=thorough unwind=17 stubs=utf8
+//@ props=C01,C05,C20,C03 tier=thorough unwind=17 stubs=utf8
 dec!(dec_1_8, 1, 8);
 //@ props=C02 tier=thorough unwind=17 stubs=utf8
 decm!(decm_1_8, 1, 8);
